@@ -2,7 +2,7 @@
 From Coq Require Import List ZArith Bool Permutation Sorted.
 From Coq.Strings Require Import Byte.
 Import ListNotations.
-From SV Require Import Text G_gff C02_Model C02_Lemmas C02_Order C02_Line C02_Score C02_Feat C02_Read C02_Fix C02_Cycle C02_Cycle2 C02_Harness C02_Lenient C02_Third C02_Xsv C02_Xsv2 C02_Opts C02_Disp.
+From SV Require Import Text G_gff C02_Model C02_Lemmas C02_Order C02_Line C02_Score C02_Feat C02_Read C02_Fix C02_Cycle C02_Cycle2 C02_Harness C02_Lenient C02_Third C02_Xsv C02_Xsv2 C02_Opts C02_Disp C02_Stream.
 Local Open Scope Z_scope.
 
 (* percent-encoding is undone exactly, for every byte string *)
@@ -332,6 +332,34 @@ Theorem C02_header_ignored : forall hl x, Forall (fun l => has x0a l = false) hl
 Proof. exact header_ignored_w. Qed.
 Print Assumptions C02_header_ignored.
 
+(* ---- tables inside streams (round 7) ---- *)
+(* a stream is what it holds and the position of the next read: a GFF text / a table read from the offset behind ANY earlier
+   content (the offset tell() gave when that content had been written) is read as the text / table alone *)
+Theorem C02_read_at_offset : forall pre t sep ft,
+  run_C02_text_at (PSeek (length pre)) (pre ++ t) = run_C02_text t /\
+  run_C02_xsvr_at sep ft (PSeek (length pre)) (pre ++ t) = run_C02_xsvr sep ft t.
+Proof. exact read_at_offset. Qed.
+Print Assumptions C02_read_at_offset.
+
+(* ... and so is one read behind any number of title lines the caller skipped with readline() *)
+Theorem C02_read_behind_titles : forall ls t sep ft, Forall (fun l => has x0a l = false) ls ->
+  run_C02_text_at (PLines (length ls)) (concat (map (fun l => l ++ nl) ls) ++ t) = run_C02_text t /\
+  run_C02_xsvr_at sep ft (PLines (length ls)) (concat (map (fun l => l ++ nl) ls) ++ t) = run_C02_xsvr sep ft t.
+Proof. exact read_behind_titles. Qed.
+Print Assumptions C02_read_behind_titles.
+
+(* two tables written one after the other into one stream: from the second table's offset that table is read *)
+Theorem C02_two_tables : forall a b ta tb, write_gff a = Some ta -> write_gff b = Some tb ->
+  read_gff (stream_rest (PSeek (length ta)) (ta ++ tb)) = read_gff tb.
+Proof. exact two_tables_offset. Qed.
+Print Assumptions C02_two_tables.
+
+Theorem C02_two_tables_xsv : forall sep ft names names' a b,
+  read_xsv sep ft (stream_rest (PSeek (length (write_xsv sep names' a))) (write_xsv sep names' a ++ write_xsv sep names b))
+  = read_xsv sep ft (write_xsv sep names b).
+Proof. exact two_tables_offset_xsv. Qed.
+Print Assumptions C02_two_tables_xsv.
+
 (* ---- read_fts / write_fts dispatch (round 7) ---- *)
 (* fmt is case-insensitive: 'GFF', 'Gff' and 'gff' name the same format *)
 Theorem C02_fmt_case_insensitive : forall s1 s2, lower s1 = lower s2 -> fmt_key s1 = fmt_key s2.
@@ -433,3 +461,7 @@ Example C02_witness_score_shapes :
   forallb canon_float (map bs ["1e-05"; "2.5e-07"; "1e+16"; "-1.5e+20"; "1.234e-05"; "1e+100"; "-3e-10"; "12.25"; "0.0001"]%bs) = true
   /\ existsb canon_float (map bs ["1e-5"; "1e-04"; "1e+15"; "10e-05"; "1.0e-05"; "1.50e-07"; "1e16"; "0e-05"; "1E-05"; "1e-005"; "e-05"; "0.00001"; "-0.0"]%bs) = false.
 Proof. exact canon_exp_ex. Qed.
+
+Example C02_witness_stream : Forall (fun l => has x0a l = false) ex_title /\
+  stream_rest (PLines 2) (concat (map (fun l => l ++ nl) ex_title) ++ bs "##gff-version 3"%bs) = bs "##gff-version 3"%bs.
+Proof. exact ex_title_ok. Qed.
